@@ -68,6 +68,7 @@ type VerifC18Case struct {
 	Main   int           `json:"main"`
 	Deps   []VerifC18Dep `json:"deps"`
 	Track  bool          `json:"track"` // declare the dependencies through track_queries of a JS transform
+	Ntrack int           `json:"ntrack"` // ... only the last ntrack of them, the others in the job JSON (both forms at once)
 	Latest bool          `json:"latest"`
 	Batch  int           `json:"batch"`
 	Ops    []VerifC18Op  `json:"ops"`
@@ -303,12 +304,20 @@ func VerifC18Run(c VerifC18Case, dir string) (obs VerifC18Obs) {
 	// job configuration
 	depParts := make([]string, 0)
 	trackLines := make([]string, 0)
-	for _, d := range c.Deps {
+	ntrack := c.Ntrack
+	if c.Track && ntrack == 0 {
+		ntrack = len(c.Deps)
+	}
+	for di, d := range c.Deps {
+		viaTrack := di >= len(c.Deps)-ntrack
 		js := make([]string, 0)
 		for _, j := range d.Joins {
 			js = append(js, fmt.Sprintf(`{"dataset":"%s","predicate":"http://v/p%d","inverse":%v}`, verifC18Ds(j.Ds), j.Pred, j.Inv))
 		}
-		depParts = append(depParts, fmt.Sprintf(`{"dataset":"%s","joins":[%s]}`, verifC18Ds(d.Ds), strings.Join(js, ",")))
+		if !viaTrack {
+			depParts = append(depParts, fmt.Sprintf(`{"dataset":"%s","joins":[%s]}`, verifC18Ds(d.Ds), strings.Join(js, ",")))
+			continue
+		}
 		// the same path as seen from the main dataset: reverse order, reverse direction
 		// joins J1..Jn from dep dataset D: hop i goes prev_i -> Ji.Ds; from main: start at main, for i = n..1 go to prev_i with !inv
 		line := "reg"
@@ -326,10 +335,14 @@ func VerifC18Run(c VerifC18Case, dir string) (obs VerifC18Obs) {
 		trackLines = append(trackLines, line+";")
 	}
 	var srcJSON, transformJSON string
-	if c.Track {
+	if ntrack > 0 {
 		code := "function track_queries(reg) {\n" + strings.Join(trackLines, "\n") + "\n}\n" +
 			"function transform_entities(entities) { return entities; }\n"
-		srcJSON = fmt.Sprintf(`{"Type":"MultiSource","Name":"%s","LatestOnly":%v}`, verifC18Ds(c.Main), c.Latest)
+		srcJSON = fmt.Sprintf(`{"Type":"MultiSource","Name":"%s","LatestOnly":%v,"Dependencies":[%s]}`,
+			verifC18Ds(c.Main), c.Latest, strings.Join(depParts, ","))
+		if len(depParts) == 0 {
+			srcJSON = fmt.Sprintf(`{"Type":"MultiSource","Name":"%s","LatestOnly":%v}`, verifC18Ds(c.Main), c.Latest)
+		}
 		transformJSON = fmt.Sprintf(`,"transform":{"Type":"JavascriptTransform","Code":"%s"}`,
 			base64.StdEncoding.EncodeToString([]byte(code)))
 	} else {
